@@ -70,4 +70,11 @@ theorem source_tyWireMessage : GeneratedSrc.tyWireMessage = ExpectedSrc.tyWireMe
 theorem source_tyMessage : GeneratedSrc.tyMessage = ExpectedSrc.tyMessage := by rfl
 theorem source_mrProcessMessage : GeneratedSrc.mrProcessMessage = ExpectedSrc.mrProcessMessage := by rfl
 
+
+/-! ### functions the model's assumptions rest on (construction, wiring, surrounding calls) are unchanged -/
+theorem source_newKafkaMessageSender : GeneratedSrc.newKafkaMessageSender = ExpectedSrc.newKafkaMessageSender := by rfl
+theorem source_msShutdown : GeneratedSrc.msShutdown = ExpectedSrc.msShutdown := by rfl
+theorem source_msgInitKafkaSender : GeneratedSrc.msgInitKafkaSender = ExpectedSrc.msgInitKafkaSender := by rfl
+theorem source_msgGetSender : GeneratedSrc.msgGetSender = ExpectedSrc.msgGetSender := by rfl
+
 end Firebolt.C12
